@@ -873,8 +873,13 @@ func (t *wordMatchTree) matches(cp *contentProvider, cost int, known map[matchTr
 				byteMatchSz: uint32(len(t.word)),
 				fileName:    t.fileName,
 			})
+			offset += idx + len(t.word)
+		} else {
+			// An occurrence that fails the boundary test may overlap one that
+			// passes it (\bfoo-foo\b in "xfoo-foo-foo"), so only step past its
+			// first byte.
+			offset += idx + 1
 		}
-		offset += idx + len(t.word)
 	}
 
 	t.found = found
@@ -1334,8 +1339,17 @@ func regexpToWordMatchTree(q *query.Regexp, opt matchTreeOpt) (_ *wordMatchTree,
 		return nil, false
 	}
 
+	// wordMatchTree tests for a non-word byte (or the text boundary) next to the
+	// literal. That is what \b means only if the literal itself starts and ends
+	// with a word byte: in \b-foo\b the leading \b requires a word byte before
+	// the '-'.
+	word := string(sub[1].Rune)
+	if len(word) == 0 || !characterClass(word[0]) || !characterClass(word[len(word)-1]) {
+		return nil, false
+	}
+
 	return &wordMatchTree{
-		word:     string(sub[1].Rune),
+		word:     word,
 		fileName: q.FileName,
 	}, true
 }
